@@ -3,6 +3,7 @@ from __future__ import annotations
 
 import itertools
 
+from .. import templates as T
 from ..dsl import H, build, canon, jsonable, run_async, run_sync
 from ..evidence import Acc
 from ..progen import EXT_MENU_FULL, EXT_MENU_QUICK, NODE_IDS, ancestors, dag_program, dag_shapes, orders, out_name, shape_names, source_assignments
@@ -190,6 +191,45 @@ def _omissions(shape, ext_src):
                 yield frozenset(om), sel
 
 
+def explicit_edge_chains(acc):
+    """Acyclic graphs built with explicit edges whose nodes consume and RE-PRODUCE one name (load -> clean -> upper, all on 'text'):
+    the declared topology is a chain, so the output is the composition in chain order (dependency-order evaluation along the
+    declared edges); every node runs exactly once.  Chain lengths 2-3, edge tuples with and without the value name, every
+    node-list order, both runners."""
+    from ..dsl import run_async, run_sync
+
+    for n in (2, 3):
+        for named in (False, True):
+            for perm in itertools.permutations(range(n)):
+                for runner in ("sync", "async"):
+                    ids = ["c0", "c1", "c2"][:n]
+                    nodes = [T.fn(ids[0], ["seed"], ["text"])] + [T.fn(i, ["text"], ["text"]) for i in ids[1:]]
+                    edges = [[ids[k], ids[k + 1]] + (["text"] if named else []) for k in range(n - 1)]
+                    prog = T.set_async(T.prog([nodes[i] for i in perm], edges=edges), runner == "async")
+                    h = H()
+                    w = {"explicit_edge_chains": True}
+                    try:
+                        g = build(prog, h)
+                        res = run_sync(g, {"seed": ("prov", "seed")}, h) if runner == "sync" else run_async(g, {"seed": ("prov", "seed")}, h, None)
+                    except Exception as e:  # noqa: BLE001
+                        acc.violation({"symptom": "run-exception", "feature": "explicit-edges-chain-reproducing-one-name"}, w, f"explicit-edge chain of {n} nodes on one name ({runner}, order {perm}): {type(e).__name__}: {str(e)[:150]}")
+                        continue
+                    acc.evaluations += 1
+                    acc.key(("explicit-edge-chain", n, named, perm, runner))
+                    exp = ("prov", "seed")
+                    for k, i in enumerate(ids):
+                        exp = (i, 0, ((("seed" if k == 0 else "text"), exp),))
+                    got = res.values.get("text")
+                    counts = {i: sum(1 for c in h.calls if c.nid == i) for i in ids}
+                    if res.status.value != "completed" or got != exp or any(v != 1 for v in counts.values()):
+                        acc.violation(
+                            {"symptom": "values-wrong", "feature": "explicit-edges-chain-reproducing-one-name"},
+                            w,
+                            f"explicit edges {edges} over nodes that each consume and re-produce 'text' ({runner}, node order {perm}): result {jsonable(got)} (invocations {counts}), dependency-order evaluation along the declared chain gives {jsonable(exp)} with one invocation each",
+                            size=n,
+                        )
+
+
 def run_shard(shard):
     tier, seed, bi, s, n = shard
     b = BOUNDS[tier][bi]
@@ -199,6 +239,7 @@ def run_shard(shard):
         from . import c05
 
         c05.sibling_bindings(acc)
+        explicit_edge_chains(acc)
     menu = EXT_MENU_FULL if b["menu"] == "full" else EXT_MENU_QUICK
     ords = orders(b["N"], {"all": "all", "rev": "rev", "rot": "rot"}[b["orders"]])
     sl = b.get("slice")
@@ -302,6 +343,10 @@ def coverage_extra(acc, tier, seed):
 
 
 def replay(rep):
+    if rep.get("explicit_edge_chains"):
+        a = Acc()
+        explicit_edge_chains(a)
+        return [v["message"] for v in a.violations.values()]
     if rep.get("sibling_bindings"):
         from . import c05
 
